@@ -63,6 +63,42 @@ theorem frame_prefix_fails (pcode : Int) (license pl q s : Bytes)
     have := run_parseFrame pcode license pl [] hp hl
     simpa using this)
 
+/-! ### a connection's byte stream (what the fault-injection stage of the harness checks on real sockets) -/
+
+/-- a connection that carried whole frames parses, frame after frame, into exactly those frames, nothing left -/
+theorem stream_of_whole_frames_parses (xs : List Sent) (hw : ∀ x ∈ xs, x.wf) :
+    parseStream xs.length (streamOf xs) = (xs.map Sent.parts, []) := by
+  have := parseStream_whole xs [] xs.length (Nat.le_refl _) hw run_parseFrame_nil
+  simpa using this
+
+/-- … and when the connection died inside a frame: the whole frames come out, the truncated one is left over
+    unparsed (it is never taken for a frame) -/
+theorem stream_with_truncated_tail (xs : List Sent) (y : Sent) (q s : Bytes) (hw : ∀ x ∈ xs, x.wf) (hy : y.wf)
+    (hs : s ≠ []) (hq : q ++ s = y.bytes) :
+    parseStream (xs.length + 1) (streamOf xs ++ q) = (xs.map Sent.parts, q) :=
+  parseStream_whole xs q (xs.length + 1) (Nat.le_succ _) hw
+    (frame_prefix_fails y.pcode y.license y.payload q s hy.1 hy.2 hs hq)
+
+/-- a stream that starts with the TAIL of a frame does not pass for a stream of whole frames: if the parse of
+    a connection's bytes is not (all frames, nothing left), the bytes are not a concatenation of whole frames -/
+theorem not_whole_frames_detected (xs : List Sent) (bs : Bytes) (hw : ∀ x ∈ xs, x.wf)
+    (h : parseStream xs.length bs ≠ (xs.map Sent.parts, [])) : bs ≠ streamOf xs := by
+  intro e
+  exact h (e ▸ stream_of_whole_frames_parses xs hw)
+
+example : ∀ x ∈ ([⟨5, [], [1, 2]⟩, ⟨-1, [97], []⟩] : List Sent), x.wf := by
+  intro x hx
+  simp only [List.mem_cons, List.mem_nil_iff, or_false] at hx
+  rcases hx with rfl | rfl <;> exact ⟨by decide, by decide⟩
+
+example : parseStream 2 (streamOf [⟨5, [], [1, 2]⟩, ⟨-1, [97], []⟩]) =
+    ([⟨10, 0, 5, 0, [1, 2]⟩, ⟨10, 0, -1, -72057593640010173, []⟩], []) := by decide +kernel
+
+/-- a connection that starts with the tail of a frame (here: its last 5 bytes) and goes on with a whole frame
+    does not parse into that frame — a receiver misreads it (the tail's bytes are taken for a header) -/
+example : parseStream 3 ((frame 5 [] [1, 2]).drop 19 ++ frame 5 [] [1, 2]) ≠ ([⟨10, 0, 5, 0, [1, 2]⟩], []) := by
+  decide +kernel
+
 /-- the payload starts with the 2-byte pack type -/
 theorem payload_layout (ty : Nat) (body r : Bytes) (h : ty < 65536) :
     payload ty body = beN 2 ty ++ body ∧ P.run (rdU 2) (payload ty body ++ r) = some (ty, body ++ r) := by
